@@ -463,3 +463,27 @@ def check_lib_version_mandatory_everywhere(ctx, rule):
                       "the %s thread of three lacks %s and report_libovni_version still succeeds on %d of %d paths: a "
                       "stream without a mandatory attribute is emulated as ok" % (("first", "second", "third")[k], what, len(succ), len(outs)))
     ctx.need(n == 10, "%d library-attribute cases" % n)
+
+
+def check_only_relocation_deletes_files(ctx, rule):
+    """Who may delete a file: in the runtime (src/rt/ovni.c, src/common.c) a call of remove / unlink / unlinkat /
+    rename lies in move_thread_to_final or in a private helper only it uses - the one place where the deletion is
+    guarded by a completed copy (R10.2, R10.4).  Directories are removed with rmdir, which refuses non-empty ones."""
+    prog = ctx.prog
+    DEL = ("remove", "unlink", "unlinkat", "rename", "renameat")
+    allowed = set(prog.helper_closure({"move_thread_to_final"}, OV)) | {"move_thread_to_final"}
+    sites, bad = 0, []
+    for f in sorted(prog.functions.values(), key=lambda g: (g.file, g.line)):
+        if f.file not in (OV, "src/common.c"):
+            continue
+        for i in f.calls():
+            cal = f.nodes[i].get("callee")
+            if cal in DEL:
+                sites += 1
+                if not (f.file == OV and f.name in allowed):
+                    bad.append("%s() in %s at %s" % (cal, f.name, f.loc(i)))
+    ctx.need(sites >= 1, "no remove/unlink call found in the runtime: the relocation is not what this rule knows")
+    ctx.check(not bad, rule, "runtime:file-deletion-only-after-copy", prog.fn("move_thread_to_final", OV).loc(),
+              "files are deleted outside the relocation copy: %s; nothing there establishes that a complete copy exists "
+              "elsewhere, so a stream kept after a failed relocation can lose its only copy" % "; ".join(bad),
+              note="%d deletion sites, all in move_thread_to_final" % sites)
